@@ -39,6 +39,9 @@ pub(crate) struct World {
     pub hashes_batch: u64,
     pub cp_batch: usize,
     pub cp_interval: u64,
+    /// block bodies (Sync protocol answers) travel slower than everything else: they are
+    /// delivered only when no other answer is in flight
+    pub slow_blocks: bool,
 }
 
 impl World {
@@ -50,6 +53,7 @@ impl World {
             hashes_batch: 2000,
             cp_batch: 2000,
             cp_interval,
+            slow_blocks: false,
         }
     }
     pub(crate) fn add_peer(&mut self, id: usize, chain: usize, height: u64) {
@@ -176,6 +180,8 @@ pub(crate) struct Sim {
     pub client: Option<Client>,
     pub world: World,
     pub queue: VecDeque<InFlight>,
+    /// answers held back by `World::slow_blocks`
+    pub held: VecDeque<InFlight>,
     /// every message the client sent, in order (kept for oracles)
     pub sent_log: Vec<Sent>,
     pub trace: Vec<String>,
@@ -196,6 +202,7 @@ impl Sim {
             client: Some(client),
             world,
             queue: VecDeque::new(),
+            held: VecDeque::new(),
             sent_log: vec![],
             trace: vec![],
             template,
@@ -217,6 +224,7 @@ impl Sim {
             client: Some(client),
             world,
             queue: VecDeque::new(),
+            held: VecDeque::new(),
             sent_log: vec![],
             trace: vec![],
             template,
@@ -249,8 +257,15 @@ impl Sim {
             }
             self.sent_log.push(s);
             for a in answers {
-                self.queue.push_back(a);
+                if self.world.slow_blocks && a.proto == Proto::Sync {
+                    self.held.push_back(a);
+                } else {
+                    self.queue.push_back(a);
+                }
             }
+        }
+        if self.queue.is_empty() {
+            self.queue.extend(self.held.drain(..));
         }
     }
 
@@ -266,6 +281,7 @@ impl Sim {
         self.log(format!("disconnect {}", id));
         self.cm().disconnect(PeerIndex::new(id));
         self.queue.retain(|m| m.peer != id);
+        self.held.retain(|m| m.peer != id);
         self.pump_out();
     }
 
